@@ -93,6 +93,9 @@ func statePurity(c *core.Ctx, rule, pkg, rootName, what string) {
 	var kinds []string
 	for _, g := range gs {
 		kind, pos, why := classifyGlobalUse(c, pkg, g)
+		if why != "" && writeOnlyCounter(c, pkg, g, seen) {
+			kind, why = "counter that nothing reached from here reads", ""
+		}
 		if why != "" {
 			ok = false
 			c.Fail(rule, pkgShort(pkg)+"."+g.Name(), pos, "%s depends on the package variable %s: %s", what, g.Name(), why)
@@ -381,4 +384,77 @@ func memoWrite(fn *ssa.Function, at ssa.Instruction, key, val ssa.Value, loadOrS
 		return "no return follows the memo write"
 	}
 	return ""
+}
+
+
+// writeOnlyCounter: g is an unexported sync/atomic counter or gauge (atomic.Int32/Int64/Uint32/Uint64/Uintptr/Bool, or
+// a plain integer touched only through the sync/atomic functions) every use of which in its package is an atomic
+// operation, and the functions reached from the analysed root only ever *write* it - Add / Store / Swap / And / Or with
+// the result unused. Reads (Load, or a used result) sit in functions the root does not reach (a String() method, a
+// debug dump): what the root computes cannot depend on the counter.
+func writeOnlyCounter(c *core.Ctx, pkg string, g *ssa.Global, reached map[*ssa.Function]bool) bool {
+	if g.Object() == nil || g.Object().Exported() {
+		return false
+	}
+	elem := g.Type().(*types.Pointer).Elem()
+	atomicType := false
+	if nt, isN := elem.(*types.Named); isN && nt.Obj().Pkg() != nil && nt.Obj().Pkg().Path() == "sync/atomic" {
+		switch nt.Obj().Name() {
+		case "Int32", "Int64", "Uint32", "Uint64", "Uintptr", "Bool":
+			atomicType = true
+		}
+	}
+	if b, isB := elem.Underlying().(*types.Basic); !atomicType && !(isB && b.Info()&types.IsInteger != 0) {
+		return false
+	}
+	fns := c.W.SourceFuncs(pkg)
+	n := 0
+	for _, fn := range fns {
+		for _, b := range fn.Blocks {
+			for _, in := range b.Instrs {
+				uses := false
+				for _, op := range in.Operands(nil) {
+					if *op == ssa.Value(g) {
+						uses = true
+					}
+				}
+				if !uses {
+					continue
+				}
+				if _, isDbg := in.(*ssa.DebugRef); isDbg {
+					continue
+				}
+				var cc *ssa.CallCommon
+				var val ssa.Value
+				switch x := in.(type) {
+				case *ssa.Call:
+					cc, val = &x.Call, x
+				case *ssa.Defer:
+					cc = &x.Call
+				}
+				if cc == nil || len(cc.Args) == 0 || cc.Args[0] != ssa.Value(g) {
+					return false
+				}
+				sc := cc.StaticCallee()
+				if sc == nil || sc.Pkg == nil || sc.Pkg.Pkg.Path() != "sync/atomic" {
+					return false
+				}
+				n++
+				top := fn
+				for top.Parent() != nil {
+					top = top.Parent()
+				}
+				if !reached[fn] && !reached[top] {
+					continue // a reader outside what the root reaches
+				}
+				name := sc.Name()
+				isWrite := strings.HasPrefix(name, "Add") || strings.HasPrefix(name, "Store") || strings.HasPrefix(name, "Swap") || strings.HasPrefix(name, "And") || strings.HasPrefix(name, "Or")
+				unused := val == nil || val.Referrers() == nil || len(*val.Referrers()) == 0
+				if !isWrite || !unused {
+					return false
+				}
+			}
+		}
+	}
+	return n > 0
 }
